@@ -6,7 +6,18 @@ BASE_WALL_MS = 1_700_000_000_000
 
 
 def jdump(v):
-    return json.dumps(v, separators=(",", ":"), ensure_ascii=False)
+    # the command tokenizer does not accept a '+' in a float exponent (1e+300); 1e300 is the same JSON number
+    return _dump(v)
+
+
+def _dump(v):
+    if isinstance(v, dict):
+        return "{" + ",".join(json.dumps(str(k), ensure_ascii=False) + ":" + _dump(x) for k, x in v.items()) + "}"
+    if isinstance(v, (list, tuple)):
+        return "[" + ",".join(_dump(x) for x in v) + "]"
+    if isinstance(v, float):
+        return json.dumps(v).replace("e+", "e")
+    return json.dumps(v, ensure_ascii=False)
 
 
 def ctx_text(ctx):
